@@ -14,6 +14,7 @@ structure PState where
   tbl : List (Nat × ORes) := []
   cache : Cache := []
   now : Int := 1000000
+  tunnel : Bool := false
   /-- origin versions ever served per resource with their sizes: what a body may legitimately be -/
   served : List (Nat × Nat × Nat) := []
 
@@ -56,15 +57,16 @@ def parseORes (fields : String) : ORes :=
 /-- the extra end-to-end / hop-by-hop headers of the harness origin, by id. -/
 def hdrSet (n : Nat) : Headers.Hdr :=
   let mk (l : List (String × String)) : Headers.Hdr := l.map (fun p => (p.1.toList, p.2.toList))
-  match n % 5 with
+  match n % 6 with
   | 1 => mk [("Set-Cookie", "a=1"), ("Set-Cookie", "b=2"), ("Vary", "Accept"), ("Vary", "Accept-Encoding")]
   | 2 => mk [("Connection", "close, X-Hop"), ("X-Hop", "secret"), ("X-Keep", "1"), ("Keep-Alive", "timeout=5")]
   | 3 => mk [("Link", "<a>; rel=next"), ("Link", "<b>; rel=prev"), ("X-Lower-Case", "v"), ("Warning", "199 - w1"), ("Warning", "199 - w2")]
   | 4 => mk [("Content-Type", "application/x-rv"), ("Proxy-Authenticate", "Basic"), ("Trailer", "X-T"), ("Upgrade", "h2c")]
+  | 5 => mk [("Connection", "X-Hop2, keep-alive"), ("X-Hop2", "s"), ("X-Keep", "2")]
   | _ => []
 
 def observedNames : List String :=
-  ["Set-Cookie", "Vary", "Link", "Warning", "X-Keep", "X-Hop", "X-Lower-Case", "Keep-Alive", "Proxy-Authenticate", "Trailer",
+  ["Set-Cookie", "Vary", "Link", "Warning", "X-Keep", "X-Hop", "X-Hop2", "X-Lower-Case", "Keep-Alive", "Proxy-Authenticate", "Trailer",
    "Upgrade", "Content-Type", "Location", "Via"]
 
 def hopList : List Str := Rv.Generated.hopHeaders.map String.toList
@@ -103,7 +105,7 @@ def bodyLen : Body → Option Nat
 def lmSym : LM → String
   | .none => "-" | .bad raw => strHex raw | .at n => s!"at:{n}"
 
-def render (res : Nat) (method : String) (r : Resp) (log : List UpReq) (reqX : String) (reqBody : Nat) : String :=
+def render (tunnel : Bool) (res : Nat) (method : String) (r : Resp) (log : List UpReq) (reqX : String) (reqBody : Nat) : String :=
   let isProxyPage := r.body = .proxyError
   let o := r.hdrFrom
   let age : String := match r.age with
@@ -129,7 +131,10 @@ def render (res : Nat) (method : String) (r : Resp) (log : List UpReq) (reqX : S
       let withLoc := if x.status = 301 || x.status = 302 then withCT ++ [("Location".toList, s!"/r{res}?moved".toList)] else withCT
       -- net/http's client deletes a response's whole Connection header when it contains the token "close"
       -- (transfer.go shouldClose), so the proxy never sees the other names it nominates
-      let seen := if (Headers.connTokens withLoc).contains "Close".toList then Headers.del withLoc Headers.connectionLit else withLoc
+      -- on a tunnel the proxy forwards with `req.Close = true`; the harness origin (net/http server) then
+      -- answers `Connection: close` INSTEAD of a handler-set Connection header that lacks the token close:
+      -- in both situations the nominations never reach the proxy
+      let seen := if (Headers.connTokens withLoc).contains "Close".toList || tunnel then Headers.del withLoc Headers.connectionLit else withLoc
       Headers.setHeaders [] (Headers.removeHopByHop hopList seen)
     | none => if isProxyPage then [("Content-Type".toList, "text/plain; charset=utf-8".toList)] else []
   let h := if r.label ≠ .none then Headers.add baseH "Via".toList "HTTP/1.1 reservoir".toList else baseH
@@ -188,9 +193,11 @@ def verdict (ps : PState) (tblNow : Nat → Option ORes) (r : Req) (entryBefore 
 
 def step (ps : PState) (fs : List String) (obs : String) : PState × String × String :=
   match fs with
-  | ["px", "reset", backend, _transport, ig, fo, dflt, retryInv, retry416, _limit] =>
-    ({ cfg := { ignoreCC := decide (ig = "1"), forceDefault := decide (fo = "1"), defaultMaxAge := int dflt * 1000,
-                retryInvalidRange := decide (retryInv = "1"), retry416 := decide (retry416 = "1"), fileBackend := decide (backend = "file") } }, "ok", "ok")
+  | ["px", "reset", backend, transport, ig, fo, dflt, retryInv, retry416, _limit] =>
+    let cfg : Cfg := { ignoreCC := decide (ig = "1"), forceDefault := decide (fo = "1"), defaultMaxAge := int dflt * 1000,
+                       retryInvalidRange := decide (retryInv = "1"), retry416 := decide (retry416 = "1"), fileBackend := decide (backend = "file") }
+    let ps' : PState := { cfg := cfg, tunnel := decide (transport = "tunnel") }
+    (ps', "ok", "ok")
   | ["px", "origin", id, fields] =>
     let o := parseORes fields
     ({ ps with tbl := (nat id, o) :: ps.tbl.filter (·.1 ≠ nat id), served := (nat id, o.ver, o.size) :: ps.served }, "ok", "ok")
@@ -213,13 +220,32 @@ def step (ps : PState) (fs : List String) (obs : String) : PState × String × S
     let (resp, cache', log) := handle ps.cfg tf ps.cache now r
     let reqX := if hs = "1" then strHex "c1" else if hs = "2" then strHex "c2,c3" else "-"
     let reqBody := if body = "-" then 0 else (unhexS body).length
-    let m := (render res method resp log reqX reqBody).replace "ifrange=IFR" s!"ifrange={ifrSym}"
-    ({ ps with cache := cache', now := now }, m, verdict { ps with now := now } tf r entryBefore obs ps.served)
+    let m := (render ps.tunnel res method resp log reqX reqBody).replace "ifrange=IFR" s!"ifrange={ifrSym}"
+    let v0 := verdict { ps with now := now } tf r entryBefore obs ps.served
+    -- C08 / C10: the end-to-end header fields delivered are exactly those of the origin answer this
+    -- response was built from: nothing lost, nothing altered, nothing left over from an earlier exchange
+    let hImpl := (between (obs ++ " ") " h=" " ").splitOn ","
+    let hModel := (between (m ++ " ") " h=" " ").splitOn ","
+    let stI := between obs "st=" " "
+    let v1 :=
+      if v0 ≠ "ok" then v0
+      else if !obs.startsWith "st=" then "ok"
+      else if hImpl.any (fun x => x.startsWith "X-Hop=") && hModel.any (fun x => x.startsWith "X-Hop=") then
+        -- the faithful model (net/http drops "Connection: close, …" before the proxy sees it) predicts the same
+        "bad:connection-nominated-header-forwarded-when-connection-also-says-close"
+      else if hImpl.any (fun x => (x.startsWith "X-Hop=" || x.startsWith "X-Hop2=") && !hModel.contains x) then "bad:connection-nominated-header-forwarded"
+      else if hImpl.any (fun x => x ≠ "" && !hModel.contains x && (hModel.any (fun y => (y.splitOn "=").head? = (x.splitOn "=").head?))) then "bad:end-to-end-header-altered"
+      else if hImpl.any (fun x => x ≠ "" && !hModel.contains x) then "bad:header-not-sent-by-the-origin-for-this-exchange"
+      else if hModel.any (fun y => y ≠ "" && !hImpl.contains y) then "bad:end-to-end-header-lost"
+      else if (stI = "200") && between obs "cr=" " " ≠ "-" then "bad:content-range-on-a-200"
+      else if stI ≠ between m "st=" " " && (between m "st=" " " ≠ "416") && (match tf res with | some o => toString o.status = between m "st=" " " | none => false) then "bad:origin-status-not-relayed"
+      else "ok"
+    ({ ps with cache := cache', now := now }, m, v1)
   | ["px", "shift", ms] => ({ ps with now := ps.now + int ms }, "shifted", "ok")
   | ["px", "tunnelclose"] => (ps, "closed", "ok")
   | ["px", "snap"] =>
-    let sizes := ((ps.cache.map (fun e => e.o.size)).toArray.qsort (· < ·)).toList
-    (ps, s!"entries={ps.cache.length} sizes=[{" ".intercalate (sizes.map toString)}] bs={sizes.foldl (· + ·) 0}", "ok")
+    let sizes := (((ps.cache.map (fun e => toString e.o.size)).toArray.qsort (· < ·)).toList)
+    (ps, s!"entries={ps.cache.length} sizes=[{" ".intercalate sizes}] bs={(ps.cache.map (fun e => e.o.size)).foldl (· + ·) 0}", "ok")
   | _ => (ps, "bad-op", "bad:bad-op")
 
 end Rv.Oracle.Proxy
